@@ -10,8 +10,9 @@
    and checks at every instant (script instants, deadlines, observed return instants), after
    the scripted call of that instant and all returns observed at that instant:
 
-     bound      held <= capacity
-     grants     whoever was granted fits (implied by the bound: the partial sums are smaller)
+     bound      held <= the capacity the semaphore was created with
+     grants     whoever was granted fits in the current capacity (zero after Terminate);
+                checking the sum is enough: the partial sums are smaller
      refusals   a refused request does not fit, and exceeds the capacity (zero after
                 Terminate) or its deadline has been reached
      pending    a request that has not returned does not fit, does not exceed the capacity,
@@ -21,7 +22,7 @@
      release    an over-release reports (held, w) once and resets held to 0
      processing Processing() = held                                                      *)
 From Coq Require Import NArith ZArith List Bool.
-From LV Require Import model.Semaphore.
+From LV Require Import lib.ZPlain model.Semaphore.
 Import ListNotations.
 
 Definition fitsb (h w c : metric) : bool :=
@@ -46,7 +47,7 @@ Fixpoint lookup_ret (id : N) (l : list (N * (bool * Z))) : option (bool * Z) :=
 Record pend := mkP { pid : N; pw : metric; pdl : Z }.
 
 Record sst := mkSS {
-  g_held : metric; g_cap : metric; g_pend : list pend;
+  g_held : metric; g_cap0 : metric; g_cap : metric; g_pend : list pend;
   g_tries : list bool; g_rels : list (option (metric * metric)); g_procs : list metric
 }.
 
@@ -54,12 +55,12 @@ Record sst := mkSS {
 Definition spec_op (s : sst) (t : Z) (op : sop) : option sst :=
   match op with
   | SAcq id w timeout =>
-    Some (mkSS (g_held s) (g_cap s) (g_pend s ++ [mkP id w (t + timeout)%Z]) (g_tries s) (g_rels s) (g_procs s))
+    Some (mkSS (g_held s) (g_cap0 s) (g_cap s) (g_pend s ++ [mkP id w (zadd t timeout)]) (g_tries s) (g_rels s) (g_procs s))
   | STry w =>
     match g_tries s with
     | b :: r =>
       if Bool.eqb b (fitsb (g_held s) w (g_cap s))
-      then Some (mkSS (if b then mplus (g_held s) w else g_held s) (g_cap s) (g_pend s) r (g_rels s) (g_procs s))
+      then Some (mkSS (if b then mplus (g_held s) w else g_held s) (g_cap0 s) (g_cap s) (g_pend s) r (g_rels s) (g_procs s))
       else None
     | [] => None
     end
@@ -69,19 +70,19 @@ Definition spec_op (s : sst) (t : Z) (op : sop) : option sst :=
       if mlt_any (g_held s) w
       then match x with
            | Some (h', w') => if meqb h' (g_held s) && meqb w' w
-                              then Some (mkSS mzero (g_cap s) (g_pend s) (g_tries s) r (g_procs s)) else None
+                              then Some (mkSS mzero (g_cap0 s) (g_cap s) (g_pend s) (g_tries s) r (g_procs s)) else None
            | None => None
            end
       else match x with
-           | None => Some (mkSS (msub (g_held s) w) (g_cap s) (g_pend s) (g_tries s) r (g_procs s))
+           | None => Some (mkSS (msub (g_held s) w) (g_cap0 s) (g_cap s) (g_pend s) (g_tries s) r (g_procs s))
            | Some _ => None
            end
     | [] => None
     end
-  | STerm => Some (mkSS (g_held s) mzero (g_pend s) (g_tries s) (g_rels s) (g_procs s))
+  | STerm => Some (mkSS (g_held s) (g_cap0 s) mzero (g_pend s) (g_tries s) (g_rels s) (g_procs s))
   | SProc =>
     match g_procs s with
-    | m :: r => if meqb m (g_held s) then Some (mkSS (g_held s) (g_cap s) (g_pend s) (g_tries s) (g_rels s) r) else None
+    | m :: r => if meqb m (g_held s) then Some (mkSS (g_held s) (g_cap0 s) (g_cap s) (g_pend s) (g_tries s) (g_rels s) r) else None
     | [] => None
     end
   end.
@@ -92,8 +93,8 @@ Definition classify (rets : list (N * (bool * Z))) (t : Z) (p : pend) : cls :=
   match lookup_ret (pid p) rets with
   | None => Pending
   | Some (ok, t') =>
-    if (t' =? t)%Z then (if ok then Granted else Refused)
-    else if (t <? t')%Z then Pending else Bad     (* returned before this instant but still pending: before its call *)
+    if zeqb t' t then (if ok then Granted else Refused)
+    else if zltb t t' then Pending else Bad     (* returned before this instant but still pending: before its call *)
   end.
 
 Definition is_cls (c d : cls) : bool :=
@@ -106,17 +107,18 @@ Definition spec_returns (rets : list (N * (bool * Z))) (s : sst) (t : Z) : optio
   let h_end := mplus (g_held s) (sum_w (cl Granted)) in
   let c := g_cap s in
   if negb (match cl Bad with [] => true | _ => false end) then None
-  else if negb (fitsb h_end mzero c) then None                                   (* bound *)
+  else if negb (fitsb h_end mzero (g_cap0 s)) then None                          (* bound *)
+  else if negb (match cl Granted with [] => true | _ => fitsb h_end mzero c end) then None   (* grants fit *)
   else if negb (forallb (fun p => negb (fitsb h_end (pw p) c) &&
-                                  (exceedsb (pw p) c || (pdl p <=? t)%Z)) (cl Refused)) then None
+                                  (exceedsb (pw p) c || zleb (pdl p) t)) (cl Refused)) then None
   else if negb (forallb (fun p => negb (fitsb h_end (pw p) c) &&
-                                  negb (exceedsb (pw p) c) && (t <? pdl p)%Z) (cl Pending)) then None
-  else Some (mkSS h_end c (cl Pending) (g_tries s) (g_rels s) (g_procs s)).
+                                  negb (exceedsb (pw p) c) && zltb t (pdl p)) (cl Pending)) then None
+  else Some (mkSS h_end (g_cap0 s) c (cl Pending) (g_tries s) (g_rels s) (g_procs s)).
 
 Fixpoint find_op (t : Z) (sc : list (Z * sop)) : option sop :=
   match sc with
   | [] => None
-  | (t', op) :: r => if (t' =? t)%Z then Some op else find_op t r
+  | (t', op) :: r => if zeqb t' t then Some op else find_op t r
   end.
 
 Definition spec_instant rets (sc : list (Z * sop)) (s : sst) (t : Z) : option sst :=
@@ -135,18 +137,18 @@ Fixpoint spec_run rets sc (s : sst) (ts : list Z) : option sst :=
 Fixpoint insertZ (x : Z) (l : list Z) : list Z :=
   match l with
   | [] => [x]
-  | y :: r => if (x <? y)%Z then x :: l else if (x =? y)%Z then l else y :: insertZ x r
+  | y :: r => if zltb x y then x :: l else if zeqb x y then l else y :: insertZ x r
   end.
 Definition sortZ (l : list Z) : list Z := fold_right insertZ [] l.
 
 Definition deadlines (sc : list (Z * sop)) : list Z :=
-  flat_map (fun x => match snd x with SAcq _ _ timeout => [(fst x + timeout)%Z] | _ => [] end) sc.
+  flat_map (fun x => match snd x with SAcq _ _ timeout => [zadd (fst x) timeout] | _ => [] end) sc.
 
 Definition instants (sc : list (Z * sop)) (d : digest) : list Z :=
   sortZ (map fst sc ++ deadlines sc ++ map (fun x => snd (snd x)) (d_rets d)).
 
 Definition spec_check (c : metric) (sc : list (Z * sop)) (d : digest) : bool :=
-  match spec_run (d_rets d) sc (mkSS mzero c [] (d_tries d) (d_rels d) (d_procs d)) (instants sc d) with
+  match spec_run (d_rets d) sc (mkSS mzero c c [] (d_tries d) (d_rels d) (d_procs d)) (instants sc d) with
   | Some s => match g_pend s, g_tries s, g_rels s, g_procs s with
               | [], [], [], [] => true
               | _, _, _, _ => false
